@@ -34,21 +34,21 @@ type Ledger struct {
 	Prop string
 	Net  *consensus.Network
 
-	Unspent    *big.Int // all unspent siacoin outputs (mature or not)
-	LockedV1   *big.Int
-	LockedV2   *big.Int
-	ClaimsPaid *big.Int
-	Forfeited  *big.Int
-	Issued     *big.Int // genesis allocation + scheduled subsidies so far
-	SF         *big.Int // siafunds in unspent outputs (big: a 64-bit sum could wrap exactly like the code under test)
-	snaps      []ledgerSnap
-	GenesisSF  *big.Int
+	Unspent      *big.Int // all unspent siacoin outputs (mature or not)
+	LockedV1     *big.Int
+	LockedV2     *big.Int
+	ClaimsPaid   *big.Int
+	Forfeited    *big.Int
+	Issued       *big.Int // genesis allocation + scheduled subsidies so far
+	SF           *big.Int // siafunds in unspent outputs (big: a 64-bit sum could wrap exactly like the code under test)
+	snaps        []ledgerSnap
+	GenesisSF    *big.Int
 	legacyMissed map[types.FileContractID]bool
 }
 
 type ledgerSnap struct {
 	Unspent, LockedV1, LockedV2, ClaimsPaid, Forfeited, Issued *big.Int
-	SF                                                          *big.Int
+	SF                                                         *big.Int
 }
 
 func NewLedger(prop string, r Reporter, n *consensus.Network) *Ledger {
@@ -199,9 +199,10 @@ func (l *Ledger) OnApply(ev chaingen.ApplyEvent) {
 	pool := bigC(ev.Prev.SiafundTaxRevenue)
 	fees := new(big.Int)
 	type claim struct {
-		id    types.SiacoinOutputID
-		want  *big.Int
-		addr  types.Address
+		id              types.SiacoinOutputID
+		want            *big.Int // revenue since creation, in whole units per siafund, times the number of siafunds
+		exact           *big.Int // the holder's share: revenue since creation times value / 10000 (rounded down to a hasting)
+		addr            types.Address
 		legacyEphemeral bool
 	}
 	var claims []claim
@@ -231,10 +232,8 @@ func (l *Ledger) OnApply(ev chaingen.ApplyEvent) {
 				l.R.Violate(l.Prop+"/claim/unknown-parent", "siafund input whose parent is neither in the supplement nor in the diffs", wit)
 				continue
 			}
-			c := new(big.Int).Sub(pool, bigC(parent.ClaimStart))
-			c.Quo(c, big.NewInt(10000))
-			c.Mul(c, new(big.Int).SetUint64(parent.SiafundOutput.Value))
-			claims = append(claims, claim{id: in.ParentID.ClaimOutputID(), want: c, addr: in.ClaimAddress})
+			c, ex := shares(pool, bigC(parent.ClaimStart), parent.SiafundOutput.Value)
+			claims = append(claims, claim{id: in.ParentID.ClaimOutputID(), want: c, exact: ex, addr: in.ClaimAddress})
 		}
 		for _, fc := range txn.FileContracts {
 			pool.Add(pool, V1Tax(n, h, bigC(fc.Payout)))
@@ -243,10 +242,8 @@ func (l *Ledger) OnApply(ev chaingen.ApplyEvent) {
 	for _, txn := range ev.Block.V2Transactions() {
 		fees.Add(fees, bigC(txn.MinerFee))
 		for _, in := range txn.SiafundInputs {
-			c := new(big.Int).Sub(pool, bigC(in.Parent.ClaimStart))
-			c.Quo(c, big.NewInt(10000))
-			c.Mul(c, new(big.Int).SetUint64(in.Parent.SiafundOutput.Value))
-			claims = append(claims, claim{id: in.Parent.ID.V2ClaimOutputID(), want: c, addr: in.ClaimAddress,
+			c, ex := shares(pool, bigC(in.Parent.ClaimStart), in.Parent.SiafundOutput.Value)
+			claims = append(claims, claim{id: in.Parent.ID.V2ClaimOutputID(), want: c, exact: ex, addr: in.ClaimAddress,
 				legacyEphemeral: in.Parent.StateElement.LeafIndex == types.UnassignedLeafIndex})
 		}
 		for _, fc := range txn.FileContracts {
@@ -272,8 +269,15 @@ func (l *Ledger) OnApply(ev chaingen.ApplyEvent) {
 			l.R.Count("claims_on_legacy_ephemeral_parent_not_judged", 1)
 			continue
 		}
-		if bigC(e.SiacoinOutput.Value).Cmp(c.want) != 0 {
-			l.R.Violate(l.Prop+"/claim/value", fmt.Sprintf("claim pays %v, holder's share since creation is %v", bigC(e.SiacoinOutput.Value), c.want), wit)
+		switch paid := bigC(e.SiacoinOutput.Value); {
+		case paid.Cmp(c.exact) == 0:
+		case paid.Cmp(c.want) == 0:
+			// the revenue since creation is not a multiple of the siafund count (v1 taxes are rounded to one, v2 taxes
+			// are not) and the remainder is dropped before multiplying: no later claim can ever collect it
+			l.R.Count("claims_paying_less_than_the_exact_share", 1)
+			l.R.Violate(l.Prop+"/claim/value/revenue-not-a-multiple-of-the-siafund-count-remainder-dropped", fmt.Sprintf("claim pays %v, the holder's share of the tax collected since creation is %v: (revenue - claim start) mod 10000 is dropped before multiplying by the number of siafunds, and the outputs created by the spend start at the current revenue, so nobody can claim it later", paid, c.exact), wit)
+		default:
+			l.R.Violate(l.Prop+"/claim/value", fmt.Sprintf("claim pays %v, holder's share since creation is %v", paid, c.exact), wit)
 		}
 		if e.SiacoinOutput.Address != c.addr {
 			l.R.Violate(l.Prop+"/claim/address", "claim output not sent to the claim address", wit)
@@ -378,4 +382,15 @@ func (l *Ledger) Clone() *Ledger {
 		c.legacyMissed[k] = v
 	}
 	return &c
+}
+
+// shares returns the claim as whole revenue units per siafund times the number of siafunds, and the exact
+// proportional share rounded down to a hasting.
+func shares(pool, claimStart *big.Int, value uint64) (units, exact *big.Int) {
+	delta := new(big.Int).Sub(pool, claimStart)
+	units = new(big.Int).Quo(delta, big.NewInt(10000))
+	units.Mul(units, new(big.Int).SetUint64(value))
+	exact = new(big.Int).Mul(delta, new(big.Int).SetUint64(value))
+	exact.Quo(exact, big.NewInt(10000))
+	return
 }
